@@ -82,8 +82,16 @@ impl Tok {
 
 impl Drop for Tok {
     fn drop(&mut self) {
+        LEDGER.lock().unwrap_or_else(|e| e.into_inner()).push(self.0);
         trace(Ev::Drop(self.0));
     }
+}
+
+/// every token dropped since the last reset, in order (independent of the trace switch)
+pub static LEDGER: Mutex<Vec<u64>> = Mutex::new(Vec::new());
+
+pub fn take_ledger() -> Vec<u64> {
+    std::mem::take(&mut *LEDGER.lock().unwrap_or_else(|e| e.into_inner()))
 }
 
 // ------------------------------------------------------------------------------------ source
@@ -537,6 +545,7 @@ fn with_loaded<'a>(cache: AnyCache<'a>, ty: &str, id: &str) -> Result<i64, Boxed
         "N" => cache.load::<TNode>(id)?.read().0.n,
         "NS" => cache.load::<TNodeS>(id)?.read().0.n,
         "A" => cache.load::<Arc<TInt>>(id)?.read().0.n,
+        "AS" => cache.load::<Arc<TIntS>>(id)?.read().0.n,
         "DI" => cache
             .load_dir::<TInt>(id)?
             .read()
@@ -628,6 +637,12 @@ pub fn run_line(cache: AnyCache, words: &[&str]) -> Result<i64, BoxedError> {
             Some(c) => run_line(c.as_any_cache(), rest),
             None => Err("no other cache".into()),
         },
+        ["catch", rest @ ..] => {
+            match std::panic::catch_unwind(std::panic::AssertUnwindSafe(|| run_line(cache, rest))) {
+                Ok(r) => r,
+                Err(_) => Ok(-9),
+            }
+        }
         ["fail"] => Err(Box::new(ScriptFail)),
         ["panic"] => panic!("script said panic"),
         _ => Err(format!("bad script line {:?}", words).into()),
